@@ -242,7 +242,11 @@ def healed (tr : List Ev) (probeSid : Nat) : Bool :=
 def c07 (tr : List Ev) (probeSid : Nat) : Bool :=
   atMostOneConnection tr && noLeakAtCensus tr && healed tr probeSid
 
-/-! ## C15 — after close has returned -/
+/-! ## C15 — after close has returned
+
+No connection attempt, no transport opened, no byte written to a transport, no `connected`
+notification, no message delivered, no send accepted (sends are refused with not-open), and at the
+end nothing of the client is left: no task, no timer, no open transport. -/
 
 def quietAfterClose : Bool → List Ev → Bool
   | _, [] => true
@@ -250,8 +254,8 @@ def quietAfterClose : Bool → List Ev → Bool
     match ev with
     | .apiCloseDone _ => quietAfterClose true rest
     | .apiOpen _ => quietAfterClose false rest
-    | .attempt _ | .opened _ _ | .wire _ _ _ | .deadWrite _ _ _ | .writeFault _ _ _ | .wireUnknown _ _
-    | .notify _ _ | .accept _ _ _ _ _ | .deliver _ _ _ =>
+    | .attempt _ | .opened _ _ | .wire _ _ _ | .writeFault _ _ _ | .wireUnknown _ _
+    | .notify true _ | .accept _ _ _ _ _ | .deliver _ _ _ =>
       !closed && quietAfterClose closed rest
     | .reject _ _ .overflow => !closed && quietAfterClose closed rest
     | .census _ tasks timers openConns _ =>
